@@ -253,7 +253,37 @@ def drivers_fail(case):
     return None
 
 
+IOPV = {'add': (operator.iadd, operator.add), 'sub': (operator.isub, operator.sub), 'mul': (operator.imul, operator.mul),
+        'div': (operator.itruediv, operator.truediv), 'floordiv': (operator.ifloordiv, operator.floordiv), 'pow': (operator.ipow, operator.pow)}
+
+
+def inplace_through_view_fails(case):
+    """v = view of x; v op= y: the in-place form works on the storage it is given (the same object comes back and x sees the
+    update), with the coefficients of the binary expression on independent copies -- for every in-place operator"""
+    x0, y0 = np.array(case['x']), np.array(case['y'])
+    sym = case['sym']
+    iop, bop = IOPV[sym]
+    r = 2 if sym == 'pow' else UTPM(y0[:, :, 1:].copy())
+    want = bop(UTPM(x0[:, :, 1:].copy()), 2 if sym == 'pow' else UTPM(y0[:, :, 1:].copy())).data
+    x = UTPM(x0.copy())
+    v = x[1:]
+    if not np.shares_memory(v.data, x.data):
+        return None
+    try:
+        w = iop(v, r)
+    except Exception as ex:
+        return 'inplace-view-exception-%s: v = x[1:]; v %s= y raised %s' % (sym, sym, type(ex).__name__ + ':' + str(ex)[:60])
+    if not close(w.data, want, 1e-12):
+        return 'inplace-view-value-%s: v %s= y differs from the binary expression on copies' % (sym, sym)
+    if w is not v or not close(x.data[:, :, 1:], want, 1e-12) or not np.array_equal(x.data[:, :, :1], x0[:, :, :1]):
+        return ('inplace-view-%s: after v = x[1:]; v %s= y the polynomial x does not hold the result (the in-place form rebinds the name '
+                'instead of updating the storage, unlike the other in-place operators)') % (sym, sym)
+    return None
+
+
 def replay_case(ctx, case):
+    if case.get('op') == 'inplace-through-view':
+        return inplace_through_view_fails(case)
     if case.get('op') == 'tracer-drivers':
         return drivers_fail(case)
     if case.get('op') == 'alias':
@@ -295,6 +325,19 @@ def run(ctx):
                     f = alias_fails(ctx, case)
                     if f:
                         ctx.report(case, 'failure', f)
+    # every in-place operator applied through a view of a polynomial, on every run
+    for sym in sorted(IOPV):
+        for D_, P_ in ((2, 1), (3, 2)):
+            x = rand_coeffs(ctx.rng, (D_, P_, 3), -2, 2)
+            y = rand_coeffs(ctx.rng, (D_, P_, 3), -2, 2)
+            x[0] = np.abs(x[0]) + 0.5
+            y[0] = np.abs(y[0]) + 0.5
+            case = {'op': 'inplace-through-view', 'sym': sym, 'D': D_, 'P': P_, 'x': x, 'y': y}
+            ctx.evaluations += 1
+            ctx.count('inplace-through-view')
+            f = inplace_through_view_fails(case)
+            if f:
+                ctx.report(case, 'failure', f)
     for i in range(300 if ctx.tier == 'quick' else 4000):
         case = alias_case(ctx.rng, ctx.tier)
         ctx.evaluations += 1
